@@ -127,16 +127,20 @@ def encodeFrame (img : ImgHdr) (p : FramePlan) : Option FrameOut :=
               -- LfGlobal: lf_dequant.all_default, global tree present, MaConfig, ModularHeader, data
               let w : BW := #[]
               let w := (w.bool true).bool true
-              let (w, plan) := writeMaConfig w p.ent p.tree (gtoks :: ptoks)
+              -- LZ77 distance multiplier of a sub-bitstream: its widest channel (meta channels included)
+              let multOf := fun (chs : List (ChanInfo × Chan)) => chs.foldl (fun m c => max m c.1.w) 0
+              let gmult := multOf globalCh
+              let pmults := pieces.map fun pc => multOf pc.chans
+              let (w, plan) := writeMaConfig w p.ent p.tree ((gmult, gtoks) :: pmults.zip ptoks)
               let w := writeModularHeader w true p.wp p.transforms
-              let w := writeSamples w plan clusters gtoks
+              let w := writeSamples w plan clusters gmult gtoks
               let lfGlobal := w.padByte.toBytes
               let groupSecs := (pieces.zip ptoks).map fun (pc, toks) =>
                 if pc.chans.isEmpty then []
                 else
                   let w : BW := #[]
                   let w := writeModularHeader w true p.wp []
-                  (writeSamples w plan clusters toks).padByte.toBytes
+                  (writeSamples w plan clusters (multOf pc.chans) toks).padByte.toBytes
               let sections :=
                 if numGroups == 1 then [lfGlobal]
                 else [lfGlobal] ++ List.replicate numLf [] ++ [[]] ++ groupSecs
